@@ -130,6 +130,28 @@ def _reply_content(ret, what):
     raise TieBroken(f"{what}: reply is not a single assistant message")
 
 
+def thread_shape(cc):
+    """the three statements of `chat_completion` that the thread theorems are about, and how often the datastore is used:
+    the thread is read from the datastore (nothing else), prepended, and written back as messages + [reply]."""
+    def calls(attr):
+        return [n for n in ast.walk(cc) if isinstance(n, ast.Call) and isinstance(n.func, ast.Attribute) and n.func.attr == attr
+                and isinstance(n.func.value, ast.Name) and n.func.value.id == "datastore"]
+
+    reads = [ast.unparse(n.value) for n in ast.walk(cc) if isinstance(n, ast.Assign) and len(n.targets) == 1
+             and isinstance(n.targets[0], ast.Name) and n.targets[0].id == "thread_messages"]
+    prepends = [ast.unparse(n.value) for n in ast.walk(cc) if isinstance(n, ast.Assign) and len(n.targets) == 1
+                and isinstance(n.targets[0], ast.Name) and n.targets[0].id == "messages" and "thread_messages" in ast.unparse(n.value)]
+    return {"reads": reads, "prepends": prepends, "n_get": len(calls("get")), "sets": [ast.unparse(c) for c in calls("set")]}
+
+
+THREAD_SHAPE = {
+    "reads": ["json.loads(await datastore.get(datastore_key) or '[]')"],
+    "prepends": ["thread_messages + messages"],
+    "n_get": 1,
+    "sets": ["datastore.set(datastore_key, json.dumps(messages + [bot_message]))"],
+}
+
+
 def process_state(tree):
     """module-level variables (targets of top-level assignments) that the request path can touch: for each entry point the
     names referenced in its body and, transitively, in the module-level functions it references.  The Lean model has exactly
@@ -270,6 +292,7 @@ def extract(tree=None):
         raise TieBroken("RequestBody.thread_id: Field(min_length=…, max_length=…) is gone")
     info["field_min"], info["field_max"] = fmin, fmax
     info["process_state"] = process_state(tree)
+    info["thread_shape"] = thread_shape(cc)
     info["fingerprints"] = {"_get_rails": fingerprint(gr), "chat_completion": fingerprint(cc), "_generate_cache_key": fingerprint(gk), "RequestBody": fingerprint(rb)}
     return info
 
